@@ -18,6 +18,7 @@ def dispatch (toks : List String) : String :=
   | "C19" :: rest => Poor.Drv.Route.handle rest
   | "RE" :: rest => Poor.Drv.Route.handleRe rest
   | "JS" :: rest => Poor.Drv.Json.handle rest
+  | "RL" :: rest => Poor.Drv.ReadAll.handle rest
   | "C18" :: rest => Poor.Drv.HeaderValue.handle rest
   | "C13" :: rest => Poor.Drv.Session.handle rest
   | "C12" :: rest => Poor.Drv.Static.handle rest
